@@ -258,6 +258,10 @@ func runC18(c *core.Ctx) {
 		defer rb.Free()
 	}
 	zone := mustZone("America/New_York")
+	if c.Index%3 == 1 {
+		zone = nil // the shared options value leaves the time zone to the default
+		c.Feature("shared-options-without-timezone")
+	}
 	// sequential baseline with fresh options: "what the call returns running alone". Three cases out of four compute it AFTER
 	// the concurrent phase, so that whatever a code path does only the first time it runs in a process (lazy initialisation,
 	// "log once" bookkeeping, first use of a cache) happens inside the concurrent phase and not in a warm-up before it.
